@@ -240,6 +240,14 @@ func (e *Env) eval(x ast.Expr) tv {
 		evalFail("unsupported literal %s", n.Value)
 	case *ast.Ident:
 		if v, ok := e.vars[n.Name]; ok {
+			// a variable of map type denotes the map it points to
+			if v.T != nil {
+				if mt, isMap := types.Unalias(v.T).Underlying().(*types.Map); isMap {
+					if mp, isT := v.V.(*Term); isT {
+						return tv{mapV{Name: mapArrBase(mt), Addr: mp, KeyT: mt.Key(), ValT: mt.Elem()}, v.T}
+					}
+				}
+			}
 			return v
 		}
 		switch n.Name {
